@@ -94,12 +94,50 @@ def secbytes (img : Option Img) (a : List String) : String :=
 def bysec (img : Option Img) (fam : String) (a : List String) : String :=
   match a with
   | [k, x] => withView img k fun v =>
-      let r := if fam == "byrva" then byRva v.secs (num x)
-        else byNameBytes v.secs (unhex x)      -- length guard and NUL padding are model code (C07_by_name_bytes)
+      -- `byname` runs the CHECKED function (panicking index primitives at `name_buf[i] = name[i]`,
+      -- wrap/sections.rs:104; `C02_byNameBytes_checked_eq`); length guard and NUL padding are model code
+      -- (C07_by_name_bytes)
+      let r : Out (Option Nat) := if fam == "byrva" then .ok (byRva v.secs (num x))
+        else byNameBytesChk v.secs (unhex x)
       match r with
-      | some i => s!"ok {i}"
-      | none => "none"
+      | .ok (some i) => s!"ok {i}"
+      | .ok none => "none"
+      | o => outStr (fun _ => "") o
   | _ => "bad-op"
+
+/-! ### second audit round, harness side: `slice_bytes`, `read_bytes`, `hdrw2`
+(separate block: the handlers above belong to the theorem side) -/
+
+-- src: pe.rs:Pe::slice_bytes `self.slice(rva, 0, 1)`  (wrap/pe.rs:Wrap::slice_bytes dispatches to it per format)
+def sliceBytesChk (v : View) (rva : Nat) : Out Ref := v.sliceChk rva 0 1
+-- src: pe.rs:Pe::read_bytes `self.read(va, 0, 1)`
+def readBytesChk (v : View) (va : Nat) : Out Ref := v.readChk va 0 1
+
+def sliceBytesOp (img : Option Img) (a : List String) : String :=
+  match a with
+  | [k, rva] => withView img k fun v => refOut (sliceBytesChk v (num rva))
+  | _ => "bad-op"
+
+def readBytesOp (img : Option Img) (a : List String) : String :=
+  match a with
+  | [k, va] => withView img k fun v => refOut (readBytesChk v (num va))
+  | _ => "bad-op"
+
+/-- `hdrw2 <k>`: every header accessor through the API of the object `k` constructs — for `wf` / `wv`
+    that is src: wrap/pe.rs:Wrap::{dos_header, dos_image, nt_headers, file_header, optional_header,
+    data_directory, section_headers, headers, image, align} and wrap/headers.rs:{pe, image, check_sum,
+    code_range, image_range}, each of which dispatches to the method of the selected format; `nt=` / `opt=`
+    carry the format of the struct handed out and the fields read through that reference. -/
+def hdrw2 (img : Option Img) (k : String) : String :=
+  withView img k fun v =>
+    let bits := match v.fmt with | .pe32 => "32" | .pe64 => "64"
+    let al := match v.kind with | .file => "F" | .view => "S"      -- src: file.rs / view.rs PeObject::align
+    let cr := v.codeRange
+    let ir := v.imageRange
+    match v.checkSumChk with
+    | .ok csum =>
+    s!"ok dos={ref v.dosHeader} dosimg={ref v.dosImage} nt={bits}@{ref v.ntHeaders} sig={le32 v.b (eLfanew v.b)} fh={ref v.fileHeader} opt={bits}@{ref v.optionalHeader} magic={optMagic v.b} soi={sizeOfImage v.b} soh={sizeOfHeaders v.b} ibase={imageBaseField v.fmt v.b} nrva={numberOfRvaAndSizes v.fmt v.b} dd={ref v.dataDirectory} sec={ref v.sectionHeaders} himg={ref v.headersImage} csum={csum} code={cr.1}..{cr.2} image={ir.1}..{ir.2} peimg=0:{v.b.size} align={al} ## stdcsum={stdPeChecksum v.b}"
+    | o => natOut o
 
 def dispatchImage : Handler := fun st fam a =>
   match fam, a with
@@ -111,6 +149,10 @@ def dispatchImage : Handler := fun st fam a =>
   | "read", a => some (readOp st.img a)
   | "secbytes", a => some (secbytes st.img a)
   | "byrva", a | "byname", a => some (bysec st.img fam a)
+  -- ---- second audit round, harness side (keep this block last) ----
+  | "slice_bytes", a => some (sliceBytesOp st.img a)
+  | "read_bytes", a => some (readBytesOp st.img a)
+  | "hdrw2", [k] => some (hdrw2 st.img k)
   | _, _ => none
 
 end Pelite.Driver
